@@ -1,4 +1,5 @@
 import AranyaV.Proofs.BraidRef
+import AranyaV.Proofs.BraidTrx
 /-!
 # C05 — Concurrent finalize commands are always detected; no false detection
 
@@ -26,6 +27,18 @@ Why `pf_complete` needs "no common descendant": what the algorithm detects is tw
 strands *simultaneously available*.  Two incomparable finalizes that are both below an already
 stored merge `m` are hidden below the point where the braid stops whenever `m` is an
 ancestor-or-self of the start; `clean_of_mergesOk` shows such an `m` cannot have been stored.
+
+On the transaction model of C06/C08 (`Model/Trx.lean`, builder-G2's; `commit` = stamp check, flush,
+head set, `evaluate_braid` via `refBraid`, then `commit_heads`; `addMerge` = `add_merge`):
+* `pf_commit_unchanged`  — a `commit` that fails with `ParallelFinalize` (indeed with any error) returns
+                           the committed store it was given — graph, heads, fact cache and stamp — and
+                           the sink unchanged: the error is returned before `commit_heads`;
+* `pf_commit_iff`        — in the live case (stamp current, nothing empty to flush, at least two tips)
+                           `commit` fails with `ParallelFinalize` iff the reference braid of the new head
+                           set does; with `pf_iff_reachable`: iff the graph the transaction would commit
+                           holds two incomparable finalize commands (`pf_commit_iff_finalizes`);
+* `pf_merge_unchanged`   — a failing `add_merge` leaves the transaction as `flush` left it and the sink
+                           untouched (the committed store is not touched by `add_merge` at all).
 -/
 namespace AranyaV.Spec
 open AranyaV.Gen
@@ -292,3 +305,76 @@ example : MergesOk (exMO ++ [exP 5 [3, 4] .merge]) :=
       exact ⟨by unfold Antichain; decide, 4, [3], by rfl⟩)
 
 end AranyaV.Spec
+
+namespace AranyaV.Trx
+open AranyaV.Spec AranyaV.Gen
+
+/-- **`pf_commit_unchanged`.** A commit that fails with `ParallelFinalize` leaves the committed
+heads, fact cache, graph and stamp — the whole committed store — and the sink exactly as they
+were (`evaluate_braid` fails before `commit_heads`; no effect reaches the sink). -/
+theorem pf_commit_unchanged (st : Store) (t : Trx) (sink : List SinkEv)
+    (h : (commit (some st) t sink).2.2 = .error .parallelFinalize) :
+    (commit (some st) t sink).1 = some st ∧ (commit (some st) t sink).2.1 = sink :=
+  commit_err_unchanged st t sink _ h
+
+/-- the same for every error of `commit` -/
+theorem commit_error_unchanged (st : Store) (t : Trx) (sink : List SinkEv) (e : Err)
+    (h : (commit (some st) t sink).2.2 = .error e) :
+    (commit (some st) t sink).1 = some st ∧ (commit (some st) t sink).2.1 = sink :=
+  commit_err_unchanged st t sink e h
+
+/-- **`pf_commit_iff`.** In the live multi-head case `commit` fails with `ParallelFinalize` exactly
+when the reference braid of the head set it would install fails that way; otherwise (no
+`malformed`/missing state) it installs that head set with the next stamp. -/
+theorem pf_commit_iff {st : Store} {t : Trx} (hl : LiveMulti st t) (sink : List SinkEv) :
+    (commit (some st) t sink).2.2 = .error .parallelFinalize ↔
+      refBraid (cmds (st.graph ++ (flushT t).written)) ((flushT t).heads.foldl hsPush []) =
+        .error .parallelFinalize := by
+  rw [commit_live_multi hl sink, ← braidFacts_pf]
+  cases hb : braidFacts (st.graph ++ (flushT t).written) ((flushT t).heads.foldl hsPush []) with
+  | error e => simp
+  | ok r => simp
+
+/-- **`pf_commit_iff_finalizes`.** … iff the graph the transaction would commit holds two finalize
+commands neither of which is an ancestor of the other (for graphs a replica can hold). -/
+theorem pf_commit_iff_finalizes {st : Store} {t : Trx} (hl : LiveMulti st t) (sink : List SinkEv)
+    (hm : MergesOk (cmds (st.graph ++ (flushT t).written)))
+    (hw : WF (cmds (st.graph ++ (flushT t).written)))
+    (hroot : Rooted (cmds (st.graph ++ (flushT t).written)))
+    (hh : Heads (cmds (st.graph ++ (flushT t).written)) ((flushT t).heads.foldl hsPush [])) :
+    (commit (some st) t sink).2.2 = .error .parallelFinalize ↔
+    ∃ f1 ∈ ancSelfAll (cmds (st.graph ++ (flushT t).written)) ((flushT t).heads.foldl hsPush []),
+    ∃ f2 ∈ ancSelfAll (cmds (st.graph ++ (flushT t).written)) ((flushT t).heads.foldl hsPush []),
+      f1 ≠ f2 ∧ isFinalize (cmds (st.graph ++ (flushT t).written)) f1 = true ∧
+      isFinalize (cmds (st.graph ++ (flushT t).written)) f2 = true ∧
+      anc (cmds (st.graph ++ (flushT t).written)) f1 f2 = false ∧
+      anc (cmds (st.graph ++ (flushT t).written)) f2 f1 = false := by
+  rw [pf_commit_iff hl sink]
+  exact pf_iff_reachable hm hw hroot hh
+
+/-- **`pf_merge_unchanged`.** A failing `add_merge` (in particular `ParallelFinalize`) leaves the
+transaction as `flush` left it and emits nothing. -/
+theorem pf_merge_unchanged (st : Store) (t : Trx) (sink : List SinkEv) (c : Cmd) (l r : Nat)
+    (h : (addMerge st t sink c l r).2.2 = some .parallelFinalize) :
+    (addMerge st t sink c l r).1 = flushT t ∧ (addMerge st t sink c l r).2.1 = sink :=
+  addMerge_err_unchanged st t sink c l r _ h
+
+/-! ### non-vacuity: a commit of two parallel finalize tips -/
+
+def exSC (i : Nat) (ps : List Nat) (p : Priority) : SCmd := ⟨{ id := i, parents := ps, prio := p, body := [] }, {}⟩
+
+/-- committed: init 1, finalize 2 on 1 (head 2, stamp 7) -/
+def exSt : Store := { graph := [exSC 1 [] .init, exSC 2 [1] .finalize], heads := [2], stamp := 7, facts := {} }
+/-- the transaction read the heads at stamp 7 and wrote a finalize 3 on 1: tips {2, 3} -/
+def exT : Trx := { offset := some 7, heads := [2, 3], written := [exSC 3 [1] .finalize] }
+
+theorem exT_live : LiveMulti exSt exT :=
+  ⟨rfl, rfl, by intro h e; have : ([2, 3] : List Nat) = [h] := e; simp at this, rfl⟩
+
+example : commit (some exSt) exT [] = (some exSt, [], .error .parallelFinalize) := by
+  have h : (commit (some exSt) exT []).2.2 = .error .parallelFinalize :=
+    (pf_commit_iff exT_live []).mpr (by rfl)
+  obtain ⟨h1, h2⟩ := pf_commit_unchanged exSt exT [] h
+  exact Prod.ext h1 (Prod.ext h2 h)
+
+end AranyaV.Trx
